@@ -9,37 +9,44 @@ Open Scope Q_scope.
 Definition opt_qeq (o' o : option Q) : Prop :=
   match o', o with Some a, Some b => a == b | None, None => True | _, _ => False end.
 
-Lemma last_shl s l' l d' d : d' == d + s -> shl s l' l -> last l' d' == last l d + s.
-Proof. intros Hd H. induction H as [|a b l' l Hab H IH]; simpl; auto.
-  destruct H; auto. Qed.
+Definition ig_interval (c : cand) (n : nat) (neg : bool) : Q :=
+  if (c_idx c =? 0)%nat
+  then (1#2) * (match c_next c with Some nx => nx | None => c_val c end - c_val c)
+  else if (c_idx c =? n)%nat || neg
+  then (1#2) * (c_val c - match c_prev c with Some p => p | None => c_val c end)
+  else (1#2) * (match c_next c with Some nx => nx | None => c_val c end - c_val c).
+Lemma ig_error_eq x r0 rt :
+  ig_error x r0 rt =
+  let c := nearest x r0 rt in
+  if qeqb (ig_interval c (length rt) (qltb (x - c_val c) 0)) 0 then None
+  else Some ((1#2) * (x - c_val c) / ig_interval c (length rt) (qltb (x - c_val c) 0)).
+Proof. reflexivity. Qed.
+
+Lemma ig_interval_shl s c' c n neg : cand_shl s c' c -> ig_interval c' n neg == ig_interval c n neg.
+Proof. intros (Hc1 & Hc2 & Hc3 & Hc4 & Hc5). unfold ig_interval. rewrite Hc1.
+  assert (A : (1#2) * (match c_next c' with Some nx => nx | None => c_val c' end - c_val c')
+           == (1#2) * (match c_next c with Some nx => nx | None => c_val c end - c_val c)).
+  { destruct (c_next c'), (c_next c); simpl in Hc5; try contradiction; lra. }
+  assert (B : (1#2) * (c_val c' - match c_prev c' with Some p => p | None => c_val c' end)
+           == (1#2) * (c_val c - match c_prev c with Some p => p | None => c_val c end)).
+  { destruct (c_prev c'), (c_prev c); simpl in Hc3; try contradiction; lra. }
+  destruct (c_idx c =? 0)%nat; [exact A|]. destruct ((c_idx c =? n)%nat || neg); [exact B|exact A]. Qed.
 
 Lemma ig_error_shl s x' x r0' r0 rt' rt : x' == x + s -> r0' == r0 + s -> shl s rt' rt ->
   opt_qeq (ig_error x' r0' rt') (ig_error x r0 rt).
-Proof. intros Hx H0 H. unfold ig_error.
-  pose proof (nearest_shl s x' x r0' r0 rt' rt Hx H0 H) as (Hc1 & Hc2 & Hc3 & Hc4 & Hc5).
+Proof. intros Hx H0 H. rewrite !ig_error_eq. cbv zeta.
+  pose proof (nearest_shl s x' x r0' r0 rt' rt Hx H0 H) as Hc.
   set (c' := nearest x' r0' rt') in *. set (c := nearest x r0 rt) in *.
-  rewrite Hc1, (F2_length _ _ _ H).
+  assert (Hv : c_val c' == c_val c + s) by (destruct Hc as (_ & _ & _ & Hv & _); exact Hv).
+  rewrite (F2_length _ _ _ H).
   assert (Ee : x' - c_val c' == x - c_val c) by lra.
   assert (Eb : qltb (x' - c_val c') 0 = qltb (x - c_val c) 0) by now rewrite Ee.
   rewrite Eb.
-  pose proof (last_shl s rt' rt r0' r0 H0 H) as Hl.
-  assert (Ei : (if (c_idx c =? length rt)%nat || qltb (x - c_val c) 0
-                then (1#2) * (c_val c' - match c_prev c' with Some p => p | None => last rt' r0' end)
-                else (1#2) * (match c_next c' with Some nx => nx | None => c_val c' end - c_val c'))
-            == (if (c_idx c =? length rt)%nat || qltb (x - c_val c) 0
-                then (1#2) * (c_val c - match c_prev c with Some p => p | None => last rt r0 end)
-                else (1#2) * (match c_next c with Some nx => nx | None => c_val c end - c_val c))).
-  { destruct ((c_idx c =? length rt)%nat || qltb (x - c_val c) 0).
-    - destruct (c_prev c'), (c_prev c); simpl in Hc3; try contradiction; lra.
-    - destruct (c_next c'), (c_next c); simpl in Hc5; try contradiction; lra. }
-  set (i' := if (c_idx c =? length rt)%nat || qltb (x - c_val c) 0
-             then (1#2) * (c_val c' - match c_prev c' with Some p => p | None => last rt' r0' end)
-             else (1#2) * (match c_next c' with Some nx => nx | None => c_val c' end - c_val c')) in *.
-  set (i := if (c_idx c =? length rt)%nat || qltb (x - c_val c) 0
-            then (1#2) * (c_val c - match c_prev c with Some p => p | None => last rt r0 end)
-            else (1#2) * (match c_next c with Some nx => nx | None => c_val c end - c_val c)) in *.
-  assert (Eq : qeqb i' 0 = qeqb i 0) by now rewrite Ei.
-  rewrite Eq. destruct (qeqb i 0); simpl; auto. rewrite Ee, Ei. reflexivity. Qed.
+  pose proof (ig_interval_shl s c' c (length rt) (qltb (x - c_val c) 0) Hc) as Ei.
+  assert (Eq : qeqb (ig_interval c' (length rt) (qltb (x - c_val c) 0)) 0 = qeqb (ig_interval c (length rt) (qltb (x - c_val c) 0)) 0)
+    by now rewrite Ei.
+  rewrite Eq. destruct (qeqb (ig_interval c (length rt) (qltb (x - c_val c) 0)) 0); simpl; auto.
+  rewrite Ee, Ei. reflexivity. Qed.
 
 Lemma ig_wrap_comp e' e : e' == e -> ig_wrap e' == ig_wrap e.
 Proof. intros H. unfold ig_wrap.
@@ -84,24 +91,28 @@ Lemma ig_error_self p x t r0 rt : r0 :: rt = p ++ x :: t -> StronglySorted Qlt (
 Proof. intros E Hs Hl. assert (Hs' := Hs). rewrite E in Hs'. apply SS_app_inv in Hs'. destruct Hs' as (_ & Hs2 & Hs3).
   assert (Hne : Forall (fun v => ~ v == x) p).
   { apply Forall_forall. intros v Hv. assert (v < x) by (apply Hs3; simpl; auto). lra. }
-  unfold ig_error. rewrite (nearest_at p x t r0 rt E Hne). cbn [c_idx c_val c_prev c_next].
+  rewrite ig_error_eq. cbv zeta. rewrite (nearest_at p x t r0 rt E Hne). unfold ig_interval. cbn [c_idx c_val c_prev c_next].
   assert (Ex : qltb (x - x) 0 = false) by (apply qltb_false; lra). rewrite Ex, orb_false_r.
   assert (Len : length rt = (length p + length t)%nat).
   { apply (f_equal (@length Q)) in E. rewrite app_length in E. simpl in E. lia. }
-  destruct (length p =? length rt)%nat eqn:El.
-  - (* the last annotation: the previous one exists and is smaller *)
-    apply Nat.eqb_eq in El. assert (t = []) by (destruct t; simpl in *; [auto|lia]). subst t.
-    destruct p as [|a p]; [simpl in *; lia|].
-    unfold olast. cbn [fold_left]. rewrite fold_some. set (ep := fold_left (fun _ v => v) p a).
-    assert (Hin : In ep (a :: p)).
-    { unfold ep. clear. revert a. induction p as [|b p IH]; intros a; simpl; auto. destruct (IH b); auto. }
-    assert (Hlt : ep < x) by (apply Hs3; simpl; auto).
-    assert (N : qeqb ((1#2) * (x - ep)) 0 = false) by (apply qeqb_false; lra). rewrite N.
-    eexists. split; [reflexivity|]. field. lra.
-  - destruct t as [|y t]. { apply Nat.eqb_neq in El. simpl in Len. lia. }
-    cbn [hd_error]. inversion Hs2 as [|? ? _ Hf]; subst. inversion Hf as [|? ? Hy _]; subst.
+  assert (Next : forall y t', t = y :: t' -> exists e, (if qeqb ((1#2) * (y - x)) 0 then None else Some ((1#2) * (x - x) / ((1#2) * (y - x)))) = Some e /\ e == 0).
+  { intros y t' ->. inversion Hs2 as [|? ? _ Hf]; subst. inversion Hf as [|? ? Hy _]; subst.
     assert (N : qeqb ((1#2) * (y - x)) 0 = false) by (apply qeqb_false; lra). rewrite N.
-    eexists. split; [reflexivity|]. field. lra. Qed.
+    eexists. split; [reflexivity|]. field. lra. }
+  destruct (length p =? 0)%nat eqn:E0.
+  - (* the first annotation: the next one exists (two annotations at least) and is larger *)
+    apply Nat.eqb_eq in E0. destruct t as [|y t]; [simpl in *; lia|]. cbn [hd_error]. eapply Next; reflexivity.
+  - destruct (length p =? length rt)%nat eqn:El.
+    + (* the last annotation: the previous one exists and is smaller *)
+      destruct p as [|a p]; [discriminate|].
+      unfold olast. cbn [fold_left]. rewrite fold_some. set (ep := fold_left (fun _ v => v) p a).
+      assert (Hin : In ep (a :: p)).
+      { unfold ep. clear. revert a. induction p as [|b p IH]; intros a; simpl; auto. destruct (IH b); auto. }
+      assert (Hlt : ep < x) by (apply Hs3; simpl; auto).
+      assert (N : qeqb ((1#2) * (x - ep)) 0 = false) by (apply qeqb_false; lra). rewrite N.
+      eexists. split; [reflexivity|]. field. lra.
+    + destruct t as [|y t]. { apply Nat.eqb_neq in El. simpl in Len. lia. }
+      cbn [hd_error]. eapply Next; reflexivity. Qed.
 
 Lemma Qfloor_unique x k : inject_Z k <= x -> x < inject_Z (k + 1) -> Qfloor x = k.
 Proof. intros H1 H2. pose proof (Qfloor_le x) as F1. pose proof (Qlt_floor x) as F2.
@@ -156,10 +167,110 @@ Proof. intros Hs Hl Hm Hb. unfold information_gain_counts.
 Example infogain_counts_self_example :
   information_gain_counts [5; 6; 7; 8] [5; 6; 7; 8] 5 = Ok (Some ([0; 0; 4; 0; 0]%nat, [0; 0; 4; 0; 0]%nat)).
 Proof. vm_compute. reflexivity. Qed.
-(* the quirk recorded in Model.Beat.ig_error: an estimate 0.25 s before the first of the annotations 5, 6, 7, 8 gets the
-   error +1/12 (interval read from reference_beats[-1]) instead of -1/4 *)
-Example ig_error_before_first : match ig_error (475#100) 5 [6; 7; 8] with Some e => qeqb e (1#12) | None => false end = true.
+(* an estimate 0.25 s before the first of the annotations 5, 6, 7, 8 is normalised by the first inter-annotation
+   interval: error 0.5 * (-1/4) / (1/2) = -1/4 (before the fix of _get_entropy the code produced +1/12) *)
+Example ig_error_before_first : match ig_error (475#100) 5 [6; 7; 8] with Some e => qeqb e (-1#4) | None => false end = true.
 Proof. vm_compute. reflexivity. Qed.
 
 Print Assumptions infogain_counts_shift.
 Print Assumptions infogain_counts_self.
+
+(* ------------------------------------------------------------------------------------------ *)
+(* C04: the normalised beat error equals its published definition                              *)
+(* ------------------------------------------------------------------------------------------ *)
+(* what `nearest` returns: the first annotation at minimal distance, with its two neighbours *)
+Definition near_inv (L : list Q) (x : Q) (k : nat) (c : cand) : Prop :=
+  nth_error L (c_idx c) = Some (c_val c)
+  /\ c_diff c = Qabs (x - c_val c)
+  /\ c_prev c = match c_idx c with O => None | S j => nth_error L j end
+  /\ c_next c = nth_error L (S (c_idx c))
+  /\ (forall j v, (j < k)%nat -> nth_error L j = Some v -> c_diff c <= Qabs (x - v))
+  /\ (forall j v, (j < c_idx c)%nat -> nth_error L j = Some v -> c_diff c < Qabs (x - v)).
+
+Lemma skipn_cons_inv {A} (L : list A) i v t : skipn i L = v :: t -> nth_error L i = Some v /\ skipn (S i) L = t.
+Proof. revert L. induction i as [|i IH]; intros L H.
+  - destruct L; simpl in H; [discriminate|]. inversion H; subst. auto.
+  - destruct L as [|a L]; [discriminate|]. simpl in H. apply IH in H. exact H. Qed.
+Lemma skipn_hd {A} (L : list A) i : hd_error (skipn i L) = nth_error L i.
+Proof. revert L. induction i as [|i IH]; intros [|a L]; simpl; auto. Qed.
+
+Lemma nth_error_skipn' {A} (L : list A) i k : nth_error (skipn i L) k = nth_error L (i + k).
+Proof. revert L. induction i as [|i IH]; intros [|a L]; simpl; auto. now destruct k. Qed.
+
+Lemma scan_inv L x : forall l i prev best, skipn (S i) L = l -> nth_error L i = Some prev ->
+  near_inv L x (S i) best -> near_inv L x (length L) (scan x (S i) prev l best).
+Proof. induction l as [|v t IH]; intros i prev best Hs Hp Hb; cbn [scan].
+  - destruct Hb as (B1 & B2 & B3 & B4 & B5 & B6). repeat split; auto.
+    intros j w Hj Hw. destruct (lt_dec j (S i)) as [Hlt|Hge]; [apply (B5 j w); auto|].
+    exfalso. assert (Hn : nth_error (skipn (S i) L) (j - S i) = Some w).
+    { rewrite nth_error_skipn'. replace (S i + (j - S i))%nat with j by lia. exact Hw. }
+    rewrite Hs in Hn. destruct (j - S i)%nat; discriminate.
+  - destruct (skipn_cons_inv _ _ _ _ Hs) as [Hv Ht].
+    apply IH; auto. destruct Hb as (B1 & B2 & B3 & B4 & B5 & B6).
+    destruct (qltb (Qabs (x - v)) (c_diff best)) eqn:E.
+    + apply qltb_true in E. unfold near_inv. cbn [c_idx c_diff c_prev c_val c_next].
+      repeat split; auto.
+      * rewrite <- Ht. apply skipn_hd.
+      * intros j w Hj Hw. destruct (Nat.eq_dec j (S i)) as [->|Hne].
+        -- rewrite Hv in Hw. inversion Hw; subst. lra.
+        -- assert (c_diff best <= Qabs (x - w)) by (apply (B5 j w); [lia|exact Hw]). lra.
+      * intros j w Hj Hw. assert (c_diff best <= Qabs (x - w)) by (apply (B5 j w); [lia|exact Hw]). lra.
+    + apply qltb_false in E. repeat split; auto.
+      intros j w Hj Hw. destruct (Nat.eq_dec j (S i)) as [->|Hne].
+      * rewrite Hv in Hw. inversion Hw; subst. exact E.
+      * apply (B5 j w); [lia|exact Hw]. Qed.
+
+Lemma nearest_spec x r0 rt : near_inv (r0 :: rt) x (length (r0 :: rt)) (nearest x r0 rt).
+Proof. unfold nearest. apply scan_inv; auto.
+  unfold near_inv. cbn [c_idx c_diff c_prev c_val c_next nth_error]. repeat split; auto.
+  - intros j v Hj Hv. assert (j = 0%nat) by lia. subst. simpl in Hv. inversion Hv; subst. lra.
+  - intros j v Hj. lia. Qed.
+
+(* half the inter-annotation interval on the side of the beat x next to the closest annotation r
+   (a = the annotation before r, y = the one after it): first / last interval at the two ends *)
+Definition side_interval (a : option Q) (r : Q) (y : option Q) (x : Q) : Q :=
+  match a, y with
+  | None, Some y => (1#2) * (y - r)
+  | Some a, None => (1#2) * (r - a)
+  | Some a, Some y => if qltb x r then (1#2) * (r - a) else (1#2) * (y - r)
+  | None, None => 0
+  end.
+
+(* Davies et al.: the error of an estimated beat x is (x - r_c) relative to the inter-annotation interval on the side of
+   the beat (the model's value is 0.5 * (x - r_c) / (half that interval)), r_c being the closest annotation (the first
+   one at minimal distance); a zero interval gives no (finite) value. *)
+Theorem ig_error_def x r0 rt : (1 <= length rt)%nat ->
+  let L := r0 :: rt in
+  let c := nearest x r0 rt in
+  nth_error L (c_idx c) = Some (c_val c)
+  /\ (forall v, In v L -> Qabs (x - c_val c) <= Qabs (x - v))
+  /\ c_prev c = match c_idx c with O => None | S k => nth_error L k end
+  /\ c_next c = nth_error L (S (c_idx c))
+  /\ ig_error x r0 rt =
+     (let iv := side_interval (c_prev c) (c_val c) (c_next c) x in
+      if qeqb iv 0 then None else Some ((1#2) * (x - c_val c) / iv)).
+Proof. intros Hl L c. destruct (nearest_spec x r0 rt) as (B1 & B2 & B3 & B4 & B5 & B6). fold c in B1, B2, B3, B4, B5, B6. fold L in B1, B3, B4, B5, B6.
+  split; [exact B1|]. split.
+  { intros v Hv. apply In_nth_error in Hv. destruct Hv as (j & Hj). rewrite <- B2. eapply B5; eauto.
+    apply nth_error_Some. congruence. }
+  split; [exact B3|]. split; [exact B4|].
+  rewrite ig_error_eq. cbv zeta. fold c.
+  assert (Hidx : (c_idx c < length L)%nat) by (apply nth_error_Some; congruence).
+  assert (E : ig_interval c (length rt) (qltb (x - c_val c) 0) = side_interval (c_prev c) (c_val c) (c_next c) x).
+  { unfold ig_interval, side_interval. rewrite B3, B4.
+    assert (Eneg : qltb (x - c_val c) 0 = qltb x (c_val c)) by (apply qltb_ext; lra). rewrite Eneg.
+    destruct (c_idx c) as [|k] eqn:Ek.
+    - cbn [Nat.eqb]. destruct (nth_error L 1) as [y|] eqn:E1; [reflexivity|].
+      apply nth_error_None in E1. unfold L in E1. simpl in E1. lia.
+    - change (S k =? 0)%nat with false. cbv iota. assert (Hk : exists a, nth_error L k = Some a).
+      { destruct (nth_error L k) eqn:E1; eauto. apply nth_error_None in E1. lia. }
+      destruct Hk as (a & ->).
+      destruct (nth_error L (S (S k))) as [y|] eqn:E2.
+      + assert (S (S k) < length L)%nat by (apply nth_error_Some; congruence).
+        assert (N : (S k =? length rt)%nat = false) by (apply Nat.eqb_neq; unfold L in *; simpl in *; lia).
+        rewrite N. cbn [orb]. destruct (qltb x (c_val c)); reflexivity.
+      + apply nth_error_None in E2.
+        assert (N : (S k =? length rt)%nat = true) by (apply Nat.eqb_eq; unfold L in *; simpl in *; lia).
+        rewrite N. reflexivity. }
+  rewrite E. reflexivity. Qed.
+Print Assumptions ig_error_def.
